@@ -125,8 +125,12 @@ class PerishableInventory(Entity):
         """Create the initial spoilage check event."""
         from happysimulator.core.temporal import Instant
 
+        # One interval after "now" (the simulation's start when scheduled before the
+        # run), not after the epoch: with a non-zero start_time an epoch-relative
+        # stamp lies in the past and the engine discards the check.
+        start = self._clock.now if self._clock is not None else Instant.Epoch
         return Event(
-            time=Instant.from_seconds(self.spoilage_check_interval_s),
+            time=start + self.spoilage_check_interval_s,
             event_type=_SPOILAGE_CHECK,
             target=self,
             daemon=True,
